@@ -12,6 +12,7 @@ mod pdbtext;
 mod rng;
 mod st;
 mod c07;
+mod c08;
 mod c12;
 
 use std::collections::BTreeMap;
@@ -105,6 +106,7 @@ fn gen(prop: &str, tier: &str, seed: u64) -> Vec<String> {
     let mut r = rng::Rng::new(seed, prop);
     match prop {
         "C07" => c07::gen(tier, &mut r),
+        "C08" => c08::gen(tier, &mut r),
         "C12" => c12::gen(tier, &mut r),
         _ => panic!("unknown property {prop}"),
     }
@@ -113,6 +115,7 @@ fn gen(prop: &str, tier: &str, seed: u64) -> Vec<String> {
 fn exec(prop: &str, case: &str) -> Exec {
     match prop {
         "C07" => c07::exec(case),
+        "C08" => c08::exec(case),
         "C12" => c12::exec(case),
         _ => panic!("unknown property {prop}"),
     }
